@@ -55,7 +55,7 @@ def mk(units, trusted, assumptions, explanation):
 
 
 PROPS = {
-    "C01": mk(["u1"], T_SIGNAL, [R1, R2, R3, A1, A5], "conservation + ownership contracts on every critical section; effect log of hand-offs"),
+    "C01": mk(["u1", "u2", "glue"], T_SIGNAL + T_U2, [R1, R2, R3, A1, A5], "conservation + ownership contracts on every critical section; effect log of hand-offs"),
     "C02": mk(["u1"], T_SIGNAL, [R1, R2, R3, A1, A5], "every send-type section appends at the tail of the logical order, every receive-type section takes its head"),
     "C03": mk(["u1"], T_SIGNAL, [R1, R2, R3, A1, A5], "every entry point ensures one atomic reference step per critical section; lock invariant at every guard death"),
     "C04": mk(["u1", "u2", "glue"], T_SIGNAL + T_U2 + ["Kani 0.68 / CBMC 6.11 as shipped; one ignored CBMC check (zero-byte memset of core::mem::zeroed::<ZST>) listed under kani_tool_artefacts_ignored"],
@@ -63,10 +63,10 @@ PROPS = {
                "memory ordering (release store after the payload write / acquire before the read) is NOT decided: Verus assumes SC, Kani has no threads"],
               "Kani: KanalPtr and Signal transport every value bit-for-bit per size class (complete per instance); Verus: a receiver reads a slot only with evidence of delivery and with the size dispatch consistent"),
     "C05": mk(["u1"], T_SIGNAL, [R1, R2, R3, A1, A5], "MaybeUninit typestate + scope-exit obligations on every lent slot + Option post-conditions"),
-    "C08": mk(["u1"], T_SIGNAL, [R1, R2, R3, A1, A2, A5], "len <= capacity is part of the lock invariant; admission post-conditions"),
+    "C08": mk(["u1", "u2", "glue"], T_SIGNAL + T_U2, [R1, R2, R3, A1, A2, A5], "len <= capacity is part of the lock invariant; admission post-conditions"),
     "C09": mk(["u1"], T_SIGNAL, [R1, R2, R3, R4, A1, A5], "all contracts are proved for all four handle types and never mention the flavour of a waiter; conversions are transmutes (shape check)"),
-    "C10": mk(["u1"], T_SIGNAL, [R1, R2, R3, A1, A5], "close contract; closed is absorbing on every entry point"),
-    "C11": mk(["u1"], T_SIGNAL, [R1, R2, R3, A1, A5], "Drop contracts; drain before SendClosed"),
+    "C10": mk(["u1", "u2", "glue"], T_SIGNAL + T_U2, [R1, R2, R3, A1, A5], "close contract; closed is absorbing on every entry point"),
+    "C11": mk(["u1", "u2", "glue"], T_SIGNAL + T_U2, [R1, R2, R3, A1, A5], "Drop contracts; drain before SendClosed"),
     "C12": mk(["u1"], [], [R1, A1, A3, A5], "+-1 contracts on every clone/drop/convert; conversions are transmutes (shape check)"),
     "C13": mk(["u1", "u2", "glue"], T_SIGNAL + T_TIME + T_U2, [R1, R2, R3, A1, A4, A5], "timed operations: two critical sections, timeout only after a successful cancel under the lock, not before the deadline (clock token)"),
     "C14": mk(["u1", "u2"], T_SIGNAL + T_U2, [R1, R2, A1, A5], "blocking-effect tokens in requires; total correctness of the non-blocking entry points"),
